@@ -648,10 +648,10 @@ pub fn gen_body(rng: &mut Prng) -> (String, &'static str) {
         let k = rng.range(1, 5);
         for _ in 0..k {
             match rng.below(5) {
-                0 => s.push_str(rng.pick(TEXTS)),
-                1 => s.push_str(rng.pick(COMMENTS)),
+                0 => s.push_str(*rng.pick(TEXTS)),
+                1 => s.push_str(*rng.pick(COMMENTS)),
                 2 => s.push_str("<div><p>t</p></div>"),
-                _ => s.push_str(rng.pick(TRICKY)),
+                _ => s.push_str(*rng.pick(TRICKY)),
             }
         }
         if rng.chance(1, 2) {
@@ -699,10 +699,13 @@ pub fn mutate_bytes(rng: &mut Prng, b: &mut Vec<u8>) {
             }
             3 => {
                 // truncated multi-byte sequence at the end
-                b.extend_from_slice(rng.pick(&[&[0xc3u8][..], &[0xe2, 0x82], &[0xf0, 0x9f, 0x98], &[0xe2], &[0xf0]]));
+                const TR: &[&[u8]] = &[&[0xc3], &[0xe2, 0x82], &[0xf0, 0x9f, 0x98], &[0xe2], &[0xf0]];
+                let t: &[u8] = TR[rng.below(TR.len())];
+                b.extend_from_slice(t);
             }
             _ => {
-                let seq: &[u8] = rng.pick(&[&[0xedu8, 0xa0, 0x80][..], &[0xc0, 0xaf], &[0xf4, 0x90, 0x80, 0x80], &[0xe0, 0x80, 0x80], &[0x80]]);
+                const BAD: &[&[u8]] = &[&[0xed, 0xa0, 0x80], &[0xc0, 0xaf], &[0xf4, 0x90, 0x80, 0x80], &[0xe0, 0x80, 0x80], &[0x80]];
+                let seq: &[u8] = BAD[rng.below(BAD.len())];
                 let p = pos.min(b.len());
                 for (i, x) in seq.iter().enumerate() {
                     b.insert(p + i, *x);
